@@ -4798,17 +4798,15 @@ class TLSConnection(TLSRecordLayer):
                     str(alert)):
                 yield result
         except TLSIllegalParameterException as alert:
-            alert = Alert().create(AlertDescription.illegal_parameter,
-                                           AlertLevel.fatal)
-            for result in self._sendError(alert):
+            for result in self._sendError(
+                    AlertDescription.illegal_parameter,
+                    str(alert)):
                 yield result
-            raise
         except TLSDecodeError as alert:
-            alert = Alert().create(AlertDescription.decode_error,
-                                           AlertLevel.fatal)
-            for result in self._sendError(alert):
+            for result in self._sendError(
+                    AlertDescription.decode_error,
+                    str(alert)):
                 yield result
-            raise
         if serverKeyExchange is not None:
             msgs.append(serverKeyExchange)
         if reqCert:
